@@ -214,6 +214,29 @@ def scenarios():
                         code=codes(reg.list_crypt_handlers, reg.get_crypt_handler, reg.register_crypt_handler), init_names=()))
     except (AttributeError, ImportError, KeyError) as ex:
         SKIPPED.append(f"scenario 'K: registry enumeration during a first load' not built: {type(ex).__name__}: {ex}")
+    # L: steady state - after everything is initialised, two threads using the same hasher with different salts do not disturb each other
+    try:
+        for nm in ("django_des_crypt", "phpass", "ldap_salted_sha1", "bigcrypt"):
+            hh = getattr(H, nm)
+            kw = {"rounds": 7} if nm == "phpass" else {}
+            ha, hb = hh.using(**kw).hash("pw-a"), hh.using(**kw).hash("pw-b")
+            k = 0
+            while hb[:12] == ha[:12] and k < 20:         # different salts
+                hb = hh.using(**kw).hash("pw-b")
+                k += 1
+            w = getattr(hh, "wrapped", hh)
+            fns = [getattr(w, a, None) for a in ("_calc_checksum", "verify", "from_string", "_norm_salt", "__init__")]
+            if nm == "django_des_crypt":
+                import passlib.handlers.des_crypt as pdc
+                fns += [A(pdc.des_crypt, "_calc_checksum"), A(pdc.des_crypt, "_calc_checksum_builtin"), A(pdc.des_crypt, "__init__")]
+                import passlib.handlers.django as pdj
+                fns += [v for v in vars(pdj).values() if callable(v) and getattr(v, "__module__", "") == pdj.__name__ and hasattr(v, "__code__")]
+
+            def mk_steady(hh=hh, ha=ha, hb=hb):
+                return [lambda: (hh.verify("pw-a", ha), hh.verify("pw-b", ha)), lambda: (hh.verify("pw-b", hb), hh.verify("pw-a", hb))]
+            out.append(dict(name=f"steady-state:{nm}", lazy=False, make=mk_steady, expected=[(True, False), (True, False)], code=codes(*fns), init_names=()))
+    except (AttributeError, ImportError, KeyError) as ex:
+        SKIPPED.append(f"scenario 'L: steady state' not built: {type(ex).__name__}: {ex}")
     try:
         # I: digest lookups cache their result on first use
         import passlib.crypto.digest as pdig
